@@ -283,7 +283,7 @@ def write_evidence(ctx, coverage, assumptions, violations, level='other'):
         'wall_s': round(time.time() - ctx.t0, 2),
         'violations': violations,
     }
-    d = os.path.join(VERIF, 'evidence')
+    d = os.environ.get('VERIF_EVIDENCE_DIR') or os.path.join(VERIF, 'evidence')     # tools/mutant.sh redirects it: a run against a modified copy must not overwrite the evidence
     os.makedirs(d, exist_ok=True)
     with open(os.path.join(d, '%s.json' % ctx.prop), 'w') as f:
         json.dump(ev, f, indent=1, sort_keys=True)
